@@ -97,6 +97,15 @@ def points(kind, p, cdf):
         else:
             ks = {-1, 0, 1, 2, 3}
         ks |= {-1, -5}
+        # quantile-spread integer thresholds (about +-0.3 .. 3 standard deviations around the centre)
+        if kind in ("Poisson", "Binomial"):
+            for q in [mpf(k) / 16 for k in (1, 2, 4, 6, 8, 10, 12, 14, 15)] + [mpf(1) / 1000, 1 - mpf(1) / 1000]:
+                a, b = -1, (p[0] if kind == "Binomial" else int(float(Q(p[0])) * 3 + 60))
+                while b - a > 1:
+                    m = (a + b) // 2
+                    if cdf(mpf(m)) < q: a = m
+                    else: b = m
+                ks.add(b)
         return sorted((k, 1) for k in ks)
     # continuous: bracket the bulk by bisection on the cdf over dyadic points
     lo, hi = -(mpf(2) ** 14), mpf(2) ** 14
